@@ -379,7 +379,7 @@ def call_edges(ctx, f):
     return out
 
 
-def guarded_reach(ctx, starts, is_target_call, guard_atoms, max_funcs=200):
+def guarded_reach(ctx, starts, is_target_call, guard_atoms, max_funcs=200, edge_filter=None):
     """Search from the functions in `starts` through call/registration edges
     whose site is NOT dominated by one of guard_atoms [(text, polarity)].
     Returns a path [(func qname, line, text)] to a call satisfying
@@ -404,6 +404,8 @@ def guarded_reach(ctx, starts, is_target_call, guard_atoms, max_funcs=200):
             # a guard at the site of a direct call (or of a success-side registration) still holds when the callee runs;
             # a failure-side handler runs later - when the chain is cancelled - so the guard at its registration says nothing
             if kind != "reg-eb" and any(a in facts[n.id] for a in guard_atoms):
+                continue
+            if edge_filter is not None and not edge_filter(n, g, kind):
                 continue
             stack.append((g, path + [(f.qname, n.lineno, "%s %s" % (kind, g.name))]))
     return None
@@ -1086,6 +1088,19 @@ def value_origins(cfg, nid, expr, params=(), _depth=0):
             if not (isinstance(st, (ast.Assign, ast.AnnAssign)) and getattr(st, "value", None) is not None):
                 return None
             tg = st.targets if isinstance(st, ast.Assign) else [st.target]
+            val = st.value
+            if len(tg) == 1 and isinstance(tg[0], (ast.Tuple, ast.List)) and isinstance(val, (ast.Tuple, ast.List)) and len(tg[0].elts) == len(val.elts):
+                # a, b = x, y (the right-hand sides are evaluated before any target is bound: a swap reads the old values)
+                hit = [v for t, v in zip(tg[0].elts, val.elts) if isinstance(t, ast.Name) and t.id == expr.id]
+                if len(hit) != 1:
+                    return None
+                if isinstance(hit[0], ast.Name) and any(isinstance(t, ast.Name) and t.id == hit[0].id for t in tg[0].elts):
+                    return None  # the value read is itself re-bound by this statement: not followed
+                sub = value_origins(cfg, d, hit[0], params, _depth + 1) if isinstance(hit[0], ast.Name) else [(d, hit[0])]
+                if sub is None:
+                    return None
+                out.extend(sub)
+                continue
             if not all(isinstance(t, (ast.Name, ast.Attribute)) for t in tg):
                 return None
             sub = value_origins(cfg, d, st.value, params, _depth + 1)
